@@ -258,6 +258,11 @@ func (C01) Run(t *testing.T, plan *kernel.Plan, keepLog bool) *kernel.Result {
 				cw.pw.KS.Reset()
 			}
 			prefix, suffix := rng.Bytes(int(op.Arg(4, 0))), rng.Bytes(int(op.Arg(5, 0)))
+			if op.Arg(4, 0)%3 == 0 {
+				// the cell is the protected value alone: the revealed cell has exactly the plaintext's length
+				// (the boundary lengths of the wire encodings are among the drawn ones)
+				prefix, suffix = nil, nil
+			}
 			if op.Arg(6, 0) == 2 {
 				prefix, suffix = []byte("%%%"), []byte("%%%\x00")
 			}
